@@ -128,6 +128,7 @@ fn ext_items() -> Vec<Item> {
 pub struct AuthCfg {
     pub fact: Option<(&'static str, i64)>,
     pub rule: Option<(&'static str, &'static str, Sc)>,
+    pub rule2: Option<(&'static str, &'static str, Sc)>,
     pub check: Option<Item>,
     pub policies: usize,
     pub scope: Sc,
@@ -155,6 +156,9 @@ pub fn mk_auth(c: &AuthCfg) -> AuthorizerBuilder {
         ab = ab.fact(b::fact(p, &[b::int(v)])).unwrap();
     }
     if let Some((h, bd, s)) = c.rule {
+        ab = ab.rule(b::Rule::new(b::pred(h, &[x()]), vec![b::pred(bd, &[x()])], vec![], s.scopes())).unwrap();
+    }
+    if let Some((h, bd, s)) = c.rule2 {
         ab = ab.rule(b::Rule::new(b::pred(h, &[x()]), vec![b::pred(bd, &[x()])], vec![], s.scopes())).unwrap();
     }
     if let Some(item) = &c.check {
@@ -187,7 +191,7 @@ pub fn auth_cfgs(tier: Tier) -> Vec<AuthCfg> {
     // check x policy
     for c in &checks {
         for p in 0..6 {
-            v.push(AuthCfg { fact: None, rule: None, check: c.clone(), policies: p, scope: Sc::None });
+            v.push(AuthCfg { fact: None, rule: None, rule2: None, check: c.clone(), policies: p, scope: Sc::None });
         }
     }
     // facts / rules with sensitive policies
@@ -197,20 +201,31 @@ pub fn auth_cfgs(tier: Tier) -> Vec<AuthCfg> {
                 if f.is_none() && r.is_none() {
                     continue;
                 }
-                v.push(AuthCfg { fact: f, rule: r, check: None, policies: p, scope: Sc::None });
+                v.push(AuthCfg { fact: f, rule: r, rule2: None, check: None, policies: p, scope: Sc::None });
             }
         }
     }
     // authorizer-level scopes
     for sc in [Sc::Authority, Sc::K1] {
         for p in [1usize, 3, 5] {
-            v.push(AuthCfg { fact: None, rule: Some(("d", "f", Sc::None)), check: Some(Item::CheckAllGt0("f", Sc::None)), policies: p, scope: sc });
+            v.push(AuthCfg { fact: None, rule: Some(("d", "f", Sc::None)), rule2: None, check: Some(Item::CheckAllGt0("f", Sc::None)), policies: p, scope: sc });
+        }
+    }
+    // two-round derivations on the authorizer side, used negatively
+    let mut chains = vec![];
+    for f in [Some(("g", 1)), Some(("f", 1)), None] {
+        for p in [3usize, 4, 2] {
+            for c in [None, Some(Item::Reject("d", 1, Sc::None)), Some(Item::CheckAllGt0("d", Sc::None))] {
+                chains.push(AuthCfg { fact: f, rule: Some(("f", "g", Sc::None)), rule2: Some(("d", "f", Sc::None)), check: c, policies: p, scope: Sc::None });
+            }
         }
     }
     if tier == Tier::Quick {
         // every third configuration + all with checks
         v = v.into_iter().enumerate().filter(|(i, c)| i % 3 == 0 || c.scope != Sc::None).map(|(_, c)| c).collect();
+        chains = chains.into_iter().enumerate().filter(|(i, _)| i % 2 == 0).map(|(_, c)| c).collect();
     }
+    v.extend(chains);
     v
 }
 
@@ -258,6 +273,14 @@ pub fn run(tier: Tier) {
                 b0s.push(vec![base[i].clone(), base[j].clone()]);
             }
         }
+    }
+    // multi-round derivations inside the token, used negatively
+    for extra in [None, Some(Item::Reject("d", 1, Sc::None)), Some(Item::CheckAllGt0("d", Sc::None)), Some(Item::CheckIf("d", Some(1), Sc::None))] {
+        let mut items = vec![Item::Fact("g", 1), Item::Rule("f", "g", Sc::None), Item::Rule("d", "f", Sc::None)];
+        if let Some(e) = extra {
+            items.push(e);
+        }
+        b0s.push(items);
     }
     let b1_items: Vec<Item> = vec![Item::Fact("g", 1), Item::Rule("d", "f", Sc::Previous), Item::CheckIf("d", Some(1), Sc::Previous), Item::Reject("g", 1, Sc::Previous), Item::Fact("f", 1), Item::CheckIf("g", None, Sc::K1)];
     for b0 in &b0s {
